@@ -476,7 +476,7 @@ def c11_tok_classifier():
 def c11_streams(tier, seed):
     q = tier == "quick"
     return [(["csv", str(seed), "1500" if q else "40000"], csv_classify),
-            (["tok", "c11", str(seed), "60" if q else "1500"], c11_tok_classifier())]
+            (["tok", "c11", str(seed), "120" if q else "1500"], c11_tok_classifier())]
 
 
 def conn_classify(line, impl, mobs, extra):
@@ -795,6 +795,14 @@ def cli_classifier(inner, prefixes):
                                "map_connection_ids_from_iter): " + ",".join(rejected) +
                                f" (re-run: VERIF_CLI_BIN=harness/target-cli/release VERIF_CLI_WORK=work/x harness/target/debug/vharness cli {t[1].split('.')[0]} <n>)")
                 info["ignore"] = False
+            elif [d for d in rel if d.startswith("reorder-order-not-by-frequency")]:
+                # C13 on the program itself: the ids written by the real `reorder` are not ordered by the number of
+                # connection-cost evaluations over the given sentences (the library's counter, tied to the model by the C13 stream)
+                t = line.split()
+                info["prop_fail"] = "reorder-output-not-ordered-by-frequency"
+                info["why"] = ("the *.lmap / *.rmap written by the real `reorder` program do not list the ids by non-increasing frequency over the "
+                               f"sentences it was given (re-run: VERIF_CLI_BIN=harness/target-cli/release VERIF_CLI_WORK=work/x harness/target/debug/vharness cli {t[1].split('.')[0]} <n>)")
+                info["ignore"] = False
             elif [d for d in rel if d.startswith("tokenize-mecab-tokens-differ")]:
                 # C19: the MeCab-style output of the real `tokenize` program, read as a corpus, is not the tokenizer's tokens
                 t = line.split()
@@ -832,6 +840,10 @@ def evalsplit_classify(line, impl, mobs, extra):
         info["prop_fail"] = "evaluate-fails-on-tokenizer-output"
         info["why"] = ("the real `evaluate` program " + ("panics" if st == "panic" else "exits with an error") + " on the MeCab-style output "
                        "that the real `tokenize` program printed for the same dictionary and options")
+    elif verb in ("SPLIT", "EVAL") and st == "ok" and mst == "err":
+        # "malformed lines are reported as errors" (theorems malformed_line_err, invalid_utf8_err): the model rejects the corpus
+        info["prop_fail"] = "program-accepts-a-malformed-corpus"
+        info["why"] = "the real `" + tags[0][5:] + "` program accepted a corpus that the corpus reader must report as an error"
     elif st == "panic" and mst != "panic":
         info["prop_fail"] = "corpus-program-panics"
         info["why"] = "a program of the corpus tool chain (" + tags[0][5:] + ") panicked where the model returns a value or an error"
